@@ -140,10 +140,27 @@ pub fn string_strategy(big: bool) -> BoxedStrategy<String> {
     }
 }
 
+/// C03 quantifies over symbols of the full Unicode range (the other codec checks compare against the
+/// strict reference codec, for which a symbol is ASCII as the specification says); set by C03's run.
+pub static UNICODE_SYMBOLS: std::sync::atomic::AtomicBool = std::sync::atomic::AtomicBool::new(false);
+
 pub fn symbol_strategy() -> BoxedStrategy<String> {
     let small = "[!-~]{0,24}".prop_map(|s| s);
     let boundary = prop_oneof![Just(254usize), Just(255), Just(256), Just(257)].prop_map(|n| "s".repeat(n));
-    prop_oneof![8 => small, 1 => boundary].boxed()
+    if UNICODE_SYMBOLS.load(std::sync::atomic::Ordering::Relaxed) {
+        let uni = "\\PC{0,16}".prop_map(|s| s);
+        // octet lengths on both sides of the 8/32-bit width boundary while the character count stays below it
+        let uni_boundary = (prop_oneof![Just(126usize), Just(127), Just(128), Just(129)], prop_oneof![Just('é'), Just('ж')], any::<bool>()).prop_map(|(n, c, pad)| {
+            let mut s: String = std::iter::repeat(c).take(n).collect();
+            if pad {
+                s.push('x');
+            }
+            s
+        });
+        prop_oneof![6 => small, 1 => boundary, 3 => uni, 1 => uni_boundary].boxed()
+    } else {
+        prop_oneof![8 => small, 1 => boundary].boxed()
+    }
 }
 
 pub fn binary_strategy(big: bool) -> BoxedStrategy<Vec<u8>> {
